@@ -2,6 +2,7 @@ package yaml
 
 import (
 	"bytes"
+	"encoding"
 	"errors"
 	"fmt"
 	"io"
@@ -149,11 +150,55 @@ func checkDocumentShape(node *yaml.Node, target reflect.Type, checked map[checke
 
 		return checkDocumentShape(node.Alias, target, checked)
 	case yaml.ScalarNode:
-		return nil
+		return checkScalarKind(node, target)
 	}
 
 	return nil
 }
+
+// checkScalarKind refuses the scalars that the decoder converts instead of refusing:
+// any scalar into a string (`package: 12`), a float into an integer (`1.9`, truncated),
+// the words yes / no / on / off — quoted or not — into a boolean.
+func checkScalarKind(node *yaml.Node, target reflect.Type) error {
+	// a key left without a value is a question of its own; types that decode themselves know what they accept
+	if isNullNode(node) || reflect.PointerTo(target).Implements(yamlUnmarshalerType) || reflect.PointerTo(target).Implements(textUnmarshalerType) {
+		return nil
+	}
+
+	tag := node.ShortTag()
+
+	var expected string
+	switch target.Kind() {
+	case reflect.String:
+		if tag != "!!str" {
+			expected = "a string"
+		}
+	case reflect.Bool:
+		if tag != "!!bool" {
+			expected = "a boolean"
+		}
+	case reflect.Int, reflect.Int8, reflect.Int16, reflect.Int32, reflect.Int64,
+		reflect.Uint, reflect.Uint8, reflect.Uint16, reflect.Uint32, reflect.Uint64:
+		if tag != "!!int" {
+			expected = "an integer"
+		}
+	case reflect.Float32, reflect.Float64:
+		if tag != "!!int" && tag != "!!float" {
+			expected = "a number"
+		}
+	}
+
+	if expected != "" {
+		return fmt.Errorf("line %d: expected %s, got %s", node.Line, expected, node.Value)
+	}
+
+	return nil
+}
+
+var (
+	yamlUnmarshalerType = reflect.TypeOf((*yaml.Unmarshaler)(nil)).Elem()
+	textUnmarshalerType = reflect.TypeOf((*encoding.TextUnmarshaler)(nil)).Elem()
+)
 
 // checkMergedMappings checks the value of a merge key: a mapping, or a list of
 // mappings, each of them possibly given by an alias.
